@@ -36,7 +36,7 @@ impl Module for M {
         LOG.lock().unwrap().push((self.path.clone(), h.id, SimTime::now().as_nanos() as u64, h.sender_module_id.0, h.receiver_module_id.0,
             h.last_gate.as_ref().map(|g| g.name().to_string()).unwrap_or_default()));
         // message 1 is bounced once: the SAME message object (it already carries a receiver id) goes back through the chain as message 3
-        if h.id == 1 {
+        if h.id == 1 && !BOUNCE_GATE.lock().unwrap().is_empty() {
             let back = BOUNCE_GATE.lock().unwrap().clone();
             let mut m = msg;
             m.header_mut().id = 3;
@@ -62,10 +62,10 @@ fn main() {
     let mut rnd = move || { s ^= s << 13; s ^= s >> 7; s ^= s << 17; s };
     if std::env::var("GATE_DRIVER_SHOW_PANICS").is_err() { std::panic::set_hook(Box::new(|_| {})); }
     let mut last_scen = String::new();
-    for _ in 0..count {
+    for it in 0..count {
         let nmod = 2 + (rnd() % 3) as usize;
         let paths: Vec<String> = (0..nmod).map(|i| format!("m{}", i)).collect();
-        let k = 1 + (rnd() % 6) as usize; // hops; gates g0..gk
+        let k = if rnd() % 5 == 0 { 9 + (rnd() % 6) as usize } else { 1 + (rnd() % 6) as usize }; // hops; gates g0..gk (every fifth chain has 9..14 hops)
         let owners: Vec<usize> = (0..=k).map(|_| (rnd() % nmod as u64) as usize).collect();
         let hops: Vec<Hop> = (0..k).map(|_| { let has = rnd() % 2 == 0; Hop { has_channel: has, latency_us: if has { 100 + (rnd() % 20) * 100 } else { 0 }, bitrate: if has && rnd() % 2 == 0 { [8_000_000usize, 1_000_000][(rnd() % 2) as usize] } else { 0 } } }).collect();
         let (size_a, size_b) = ([0usize, 36, 436][(rnd() % 3) as usize], [0usize, 100, 1000][(rnd() % 3) as usize]);
@@ -74,8 +74,12 @@ fn main() {
         LOG.lock().unwrap().clear();
         IDS.lock().unwrap().clear();
         // A = owner of g0 sends id 1 at 0; B = owner of gk sends id 2 at 1 s (every channel is idle again by then)
-        *SENDS.lock().unwrap() = vec![(paths[owners[0]].clone(), "g0".into(), 1, size_a, 0), (paths[owners[k]].clone(), format!("g{}", k), 2, size_b, 1_000_000)];
-        *BOUNCE_GATE.lock().unwrap() = format!("g{}", k);
+        // every third scenario: both ends send at time 0 (the two directions of a hop have channels of their own); no bounce then,
+        // so that nothing else uses the backward direction
+        let simul = rnd() % 3 == 0;
+        let t2: u64 = if simul { 0 } else { 1_000_000 };
+        *SENDS.lock().unwrap() = vec![(paths[owners[0]].clone(), "g0".into(), 1, size_a, 0), (paths[owners[k]].clone(), format!("g{}", k), 2, size_b, t2)];
+        *BOUNCE_GATE.lock().unwrap() = if simul { String::new() } else { format!("g{}", k) };
         let mut sim = Sim::new(());
         for p in paths.iter() { sim.node(p.as_str(), M { path: p.clone() }); }
         let gates: Vec<GateRef> = (0..=k).map(|i| sim.gate(paths[owners[i]].as_str(), &format!("g{}", i))).collect();
@@ -116,11 +120,11 @@ fn main() {
         let bwd_delay: u64 = hops.iter().map(|h| h.latency_us * 1000 + busy_ns(h.bitrate, size_b + 64)).sum();
         let (a, b) = (paths[owners[0]].clone(), paths[owners[k]].clone());
         let bounce_delay: u64 = hops.iter().map(|h| h.latency_us * 1000 + busy_ns(h.bitrate, size_a + 64)).sum();
-        let want = vec![
+        let mut want = vec![
             (b.clone(), 1u16, fwd_delay, id_of(&a), id_of(&b), format!("g{}", k)),
-            (a.clone(), 2u16, 1_000_000_000 + bwd_delay, id_of(&b), id_of(&a), "g0".to_string()),
-            (a.clone(), 3u16, fwd_delay + bounce_delay, id_of(&b), id_of(&a), "g0".to_string()),
+            (a.clone(), 2u16, t2 * 1000 + bwd_delay, id_of(&b), id_of(&a), "g0".to_string()),
         ];
+        if !simul { want.push((a.clone(), 3u16, fwd_delay + bounce_delay, id_of(&b), id_of(&a), "g0".to_string())); }
         if got != want { fail("delivery", &scen, format!("(receiver, msg, arrival_ns, sender_id, receiver_id, final_gate) {:?}", want), format!("{:?}", got)); }
     }
     println!("{{\"mismatch\":false,\"scenarios\":{},\"other\":\"\",\"sample\":\"{}\"}}", count, last_scen.replace('"', "'"));
